@@ -185,6 +185,7 @@ func (s *Solver) Check() string {
 		line, err = r.line, r.err
 	case <-time.After(hard):
 		// the soft timeout was ignored: kill, rebuild the stack in a new process, answer unknown
+		fmt.Fprintf(logw, "solver watchdog: query exceeded %v, restarting solver (stack depth %d)\n", hard, len(s.stack))
 		s.restart()
 		s.queries++
 		s.unknown++
